@@ -8,6 +8,7 @@ import NutsProofs.Lemmas.BPTreeRefine
 import NutsProofs.Lemmas.KVRefine
 import NutsProofs.Lemmas.Hints
 import NutsProofs.Lemmas.PrefixRefine
+import NutsProofs.Facts
 namespace NutsProofs.C01
 open Nuts Nuts.Model Nuts.Model.DB NutsProofs
 
@@ -343,5 +344,13 @@ theorem C01_witness_history :
     rcases ht with rfl | rfl | rfl | rfl <;>
       (first | (simp only [wPut, List.mem_singleton] at hr; subst hr; refine ⟨Or.inl rfl, by decide⟩)
              | (simp only [wDel, List.mem_singleton] at hr; subst hr; refine ⟨Or.inr rfl, by decide⟩))
+
+/-- **regenerated tie of the split points.** The tree the refinement theorems are about splits where bptree.go
+splits now: `order` and `getSplitIndex` are regenerated from the source on this run. -/
+theorem C01_split_points_regenerated :
+    NutsProofs.Facts.lookup NutsGen.F.consts "order" = some 8 ∧ (NutsGen.K.getSplitIndex.run 8).vals = [4] ∧
+    (NutsGen.K.getSplitIndex.run 7).vals = [4] ∧ Nuts.Model.BPTree.maxKeys = 7 :=
+  NutsProofs.Facts.bptree_split_points
+
 
 end NutsProofs.C01
